@@ -479,3 +479,63 @@ def ex6(ctx: Ctx):
     assert not hasattr(UnicodeError, "reason") and hasattr(UnicodeEncodeError, "reason") and hasattr(ValueError, "args")
     ctx.instance(rule)
     ctx.ob(rule, "<package>", "exception attribute reads", True, sample=f"{n} read(s) inspected; self-check: UnicodeError has no .reason", nontrivial=False)
+
+
+def ex7(ctx: Ctx):
+    """EX7: every name a function reads is bound - a parameter or local of an enclosing function scope, a module-level name
+    (assignment, def, class, import) or a builtin. An unbound name on a rarely taken path (an error handler, a fall-back
+    branch) is a NameError there: an exception type the API does not promise. Decided with the compiler's own symbol tables
+    (`symtable`), so the scoping rules are Python's."""
+    import builtins
+    import symtable
+    model = ctx.model
+    rule = "EX7"
+    ctx.rule(rule, floor=6, what="no function reads a name that is bound nowhere")
+    for mi in model.modules.values():
+        if mi.backend != "py" or not getattr(mi, "path", None) and not hasattr(mi, "tree"):
+            continue
+        src = getattr(mi, "source", None)
+        if src is None:
+            try:
+                src = ast.unparse(mi.tree)
+            except Exception:
+                continue
+        try:
+            top = symtable.symtable(src, f"yarl/{mi.name}.py", "exec")
+        except SyntaxError:
+            raise AnalysisError(f"EX7: {mi.name} cannot be compiled to a symbol table")
+        module_names = set(top.get_identifiers())
+        star = any(isinstance(n, ast.ImportFrom) and any(a.name == "*" for a in n.names) for n in ast.walk(mi.tree))
+
+        fnodes = {}
+        for n in ast.walk(ast.parse(src)):
+            if isinstance(n, (ast.FunctionDef, ast.AsyncFunctionDef, ast.Lambda)):
+                fnodes.setdefault((getattr(n, "name", "lambda"), n.lineno), n)
+
+        def live_reads(fnode, name):
+            """Is `name` read anywhere in the function outside `if TYPE_CHECKING:` blocks (which never run)?"""
+            dead = set()
+            for n in ast.walk(fnode):
+                if isinstance(n, ast.If) and isinstance(n.test, ast.Name) and n.test.id == "TYPE_CHECKING":
+                    for b in n.body:
+                        dead.update(id(x) for x in ast.walk(b))
+            return any(isinstance(n, ast.Name) and n.id == name and isinstance(n.ctx, ast.Load) and id(n) not in dead for n in ast.walk(fnode))
+
+        def visit(tab, path):
+            for child in tab.get_children():
+                visit(child, path + [child.get_name()])
+            if tab.get_type() != "function":
+                return
+            fnode = fnodes.get((tab.get_name(), tab.get_lineno()))
+            missing = []
+            for sym in tab.get_symbols():
+                if sym.is_referenced() and sym.is_global() and not sym.is_declared_global() and not sym.is_assigned():
+                    n = sym.get_name()
+                    if n not in module_names and not hasattr(builtins, n) and not star and n not in ("__class__", "__file__", "__name__") \
+                            and (fnode is None or live_reads(fnode, n)):
+                        missing.append(n)
+            ctx.instance(rule)
+            ctx.ob(rule, f"{mi.name}.{'.'.join(path)}", "names read", not missing,
+                   f"reads {sorted(missing)} which no scope binds: NameError on the path that gets there",
+                   f"yarl/{mi.name}.py:{tab.get_lineno()}", sample="every read name is bound")
+        visit(top, [])
